@@ -702,30 +702,51 @@ func c01Pref64Lifetime(c *Ctx) {
 		kv, isC := k.ConstInt()
 		return isC && kv == 3 && x.Op == an.OpParam && x.Idx == 1
 	}
-	mod8 := func(e *an.Expr) bool {
+	const capNS = 8191 * unit
+	// X: the value that is rounded: A itself (the path must then have established A < cap), or
+	// min(A, cap) (clamped first: the cap is a multiple of the unit, so rounding leaves it alone)
+	isX := func(e *an.Expr) (ok, clamped bool) {
+		if isA(e) {
+			return true, false
+		}
+		if e.Op == an.OpCall && e.Fn == nil && e.Name == "min" && len(e.Args) == 2 {
+			x, k := e.Args[0], e.Args[1]
+			if _, isC := x.ConstInt(); isC {
+				x, k = k, x
+			}
+			kv, isC := k.ConstInt()
+			return isC && kv == capNS && isA(x), true
+		}
+		return false, false
+	}
+	modX := func(e *an.Expr) (*an.Expr, bool) {
 		if e.Op != an.OpBin || e.Tok != token.REM {
-			return false
+			return nil, false
 		}
 		k, isC := e.Args[1].ConstInt()
-		return isC && k == unit && isA(e.Args[0])
+		if ok, _ := isX(e.Args[0]); ok && isC && k == unit {
+			return e.Args[0], true
+		}
+		return nil, false
 	}
-	seconds := func(e *an.Expr, inner func(*an.Expr) bool) bool { return inner(e) }
-	rounded := func(e *an.Expr) bool {
-		// A + (8s - A%8s)
+	rounded := func(e *an.Expr) (*an.Expr, bool) {
+		// X + (8s - X%8s)
 		if e.Op != an.OpBin || e.Tok != token.ADD {
-			return false
+			return nil, false
 		}
 		a, b := e.Args[0], e.Args[1]
-		if !isA(a) {
+		if ok, _ := isX(a); !ok {
 			a, b = b, a
 		}
-		if !isA(a) || b.Op != an.OpBin || b.Tok != token.SUB {
-			return false
+		if ok, _ := isX(a); !ok || b.Op != an.OpBin || b.Tok != token.SUB {
+			return nil, false
 		}
 		k, isC := b.Args[0].ConstInt()
-		return isC && k == unit && mod8(b.Args[1])
+		m, okm := modX(b.Args[1])
+		return a, isC && k == unit && okm && m.String() == a.String()
 	}
 	n := 0
+	seenCase := map[string]bool{}
 	for _, p := range c.pathsO("R-C01-3", f, an.PathOpts{}) {
 		if p.Ret == nil {
 			continue
@@ -750,40 +771,57 @@ func c01Pref64Lifetime(c *Ctx) {
 		n++
 		// what the path decided
 		needsRound, roundTested, belowCap, capTested := false, false, false, false
+		var roundedOf *an.Expr
 		for _, a := range p.Atoms {
 			x, y, op, ok := effCmp(a)
 			if !ok {
 				continue
 			}
-			if mod8(x) {
+			if m, okm := modX(x); okm {
 				if k, isC := y.ConstInt(); isC && k == 0 && (op == token.GTR || op == token.NEQ || op == token.LEQ || op == token.EQL) {
 					roundTested = true
 					needsRound = op == token.GTR || op == token.NEQ
+					roundedOf = m
 				}
 			}
 			if isA(x) && (op == token.LSS || op == token.GEQ) {
 				// against the cap of 65528 s
-				if k, isC := y.ConstInt(); isC && k == 8191*unit {
+				if k, isC := y.ConstInt(); isC && k == capNS {
 					capTested = true
 					belowCap = op == token.LSS
 				}
 			}
 		}
 		state := fmt.Sprintf("below-cap=%s,needs-rounding=%s", tri(belowCap, capTested), tri(needsRound, roundTested))
+		// the rounded value is legitimate when it was clamped first, or when the path knows A < cap
+		legit := func(x *an.Expr) bool {
+			ok, clamped := isX(x)
+			return ok && (clamped || (capTested && belowCap)) && (roundedOf == nil || roundedOf.String() == x.String())
+		}
 		var ok bool
 		switch {
 		case capTested && !belowCap:
 			k, isC := lt.ConstInt()
-			ok = isC && k == 8191*8*1000000000
-		case capTested && roundTested && needsRound:
-			ok = seconds(lt, rounded)
-		case capTested && roundTested && !needsRound:
-			ok = seconds(lt, isA)
+			ok = isC && k == capNS
+			seenCase["capped"] = true
+		case roundTested && needsRound:
+			x, okr := rounded(lt)
+			ok = okr && legit(x)
+			seenCase["rounded"] = true
+			if _, cl := isX(x); okr && cl {
+				seenCase["capped"] = true
+			}
+		case roundTested && !needsRound:
+			ok = legit(lt)
+			seenCase["exact"] = true
+			if _, cl := isX(lt); cl {
+				seenCase["capped"] = true
+			}
 		}
 		c.R.Check(ok, "R-C01-3", fn+":lifetime-arithmetic@"+state, fn, c.pos(p.Ret.Pos()), fmt.Sprintf("Lifetime = %s under %s", lt, state),
-			"3 × maxInterval, rounded up to a multiple of 8 s when (· % 8s) > 0; 65528 s at the cap", "PREF64 lifetime is not 3 × MaxRtrAdvInterval rounded up to a multiple of 8 s")
+			"3 × maxInterval (clamped to 65528 s before or after), rounded up to a multiple of 8 s when (· % 8s) > 0", "PREF64 lifetime is not 3 × MaxRtrAdvInterval rounded up to a multiple of 8 s")
 	}
-	c.R.Check(n == 3, "R-C01-3", fn+":lifetime-paths", fn, c.pos(f.Pos()), fmt.Sprintf("%d path(s) with a lifetime", n), "3 (capped, rounded, exact)", "the lifetime computation has an unexpected shape")
+	c.R.Check(seenCase["capped"] && seenCase["rounded"] && seenCase["exact"], "R-C01-3", fn+":lifetime-paths", fn, c.pos(f.Pos()), fmt.Sprintf("%d path(s) with a lifetime; cases %v", n, seenCase), "the capped, the rounded and the exact case are all present", "the lifetime computation has an unexpected shape")
 }
 
 // isWireFormName matches idna.ToUnicode(strings.TrimSuffix(raw.DomainNames[i], "."))#0: a configured DNSSL
